@@ -28,6 +28,7 @@ def handlers : List (String × (Json → Except String Json)) := [
   ("pathlib", SqlLineage.IO.PathSec.handlePathlib),
   ("exportsql", SqlLineage.IO.Export.handleExportSql),
   ("exportgraph", SqlLineage.IO.Export.handleExportGraph),
+  ("exportfull", SqlLineage.IO.Export.handleExportFull),
   ("ident", SqlLineage.IO.Names.handleIdent),
   ("namesBatch", SqlLineage.IO.Names.handleBatch),
   ("namesOf", SqlLineage.IO.Names.handleOf),
